@@ -37,6 +37,30 @@ NEEDS = {
  "C17-a": ("timestamps rounded to the nearest tick instead of toward the Unix epoch", "times whose nanoseconds mod 100 are in 50..=99"),
  "C17-b": ("append_mini_sector also sets the root's modified time to now", "root modified time set, then a small-stream write that appends a mini sector"),
  "C18-a": ("Stream::write re-bases the buffer at cursor instead of offset + cursor when the buffer is full", "one handle writing > 2 x max_buffer_size from 0 (or > max_buffer_size from a non-zero offset): results depend on max_buffer_size"),
+ "C01-c": ("DirEntry::read_from rejects name_len_bytes >= 64 (was > 64)", "an object whose name is exactly 31 UTF-16 units, then close and reopen: the produced file no longer opens"),
+ "C01-d": ("compare_names ASCII fast path folds to lower case", "same-length ASCII siblings where one of [ ] ^ _ ` meets a letter: listings in non-CFB order"),
+ "C02-c": ("paint_black writes the colour byte at offset 66 (object type) instead of 67", "a foreign file with red entries, a removal whose replacement entry is red, then a reopen of the bytes"),
+ "C02-d": ("name-length field counts code points instead of UTF-16 units", "a name containing a supplementary-plane character, then a reopen of the bytes"),
+ "C03-c": ("as C01-a (predecessor's left subtree unlinked on two-children removal)", "the unlinked entries stay allocated: their sectors / mini sectors have no owner"),
+ "C03-d": ("as C01-d (lower-case folding in the ASCII fast path)", "the stored sibling tree is no search tree under CFB order although the API looks consistent"),
+ "C04-c": ("as C01-d", "a spec-ordered foreign tree with [ ] ^ _ ` against letters is rejected by both open modes"),
+ "C04-d": ("MiniFAT vs root-stream size check demands equality", "a foreign file whose mini stream ends in free mini sectors still counted in the root size: strict open rejects"),
+ "C05-c": ("permissive validation tolerates repeated MiniFAT cells of value 0", "zero-filled MiniFAT sector with 0 on a cycle, then reading a mini stream that leads to 0: MiniChain::new spins with unbounded memory"),
+ "C05-d": ("directory Vec pre-sized from the unvalidated header num_dir_sectors", "V4 file with a huge value at header offset 40: multi-terabyte allocation request, process abort"),
+ "C06-c": ("set_len clears the handle's buffer only when the position was clamped", "shrink landing inside the buffered window at or after the position, then reads: bytes beyond the new end are returned"),
+ "C06-d": ("a new DIFAT sector is not recorded in the FAT (and so handed out again as a data sector)", "one handle writing a V3 stream past ~7.1 MB, then reading it back"),
+ "C07-c": ("free-list sectors are not re-initialised for SectorInit::Zero", "regular sectors with non-zero data freed earlier, then another stream grown by set_len into them: foreign bytes visible"),
+ "C07-d": ("remove_dir_entry writes the parent's right link at offset 68 (left link) on disk", "removing a right child, then reopening (the live object is unaffected)"),
+ "C08-c": ("as C06-c", "handle with buffered old content, position before the cut: set_len(smaller) then set_len(larger) serves stale bytes from the buffer"),
+ "C08-d": ("sector zero-initialisation uses write() instead of write_all()", "a backend returning short write counts and a grow into reused regular sectors"),
+ "C09-c": ("case folding done per UTF-16 code unit (surrogates pass through)", "cased supplementary-plane letters (Deseret, Osage, Adlam ...) addressed or re-created under the other case"),
+ "C09-d": ("name validation moved below directory-entry allocation", "an invalid-name create issued exactly when the directory has no spare slot: a directory sector is appended before the refusal"),
+ "C10-c": ("create_storage_all validates only the leaf name up front", "create_storage_all with a fresh valid ancestor, an invalid middle component and a valid leaf: the ancestor is left behind"),
+ "C10-d": ("failed flush restores the dirty marker only for I/O errors, not for NotFound / InvalidInput", "needs TWO handles on one stream (or a handle on a removed stream): outside the statement of every property; recorded, not claimed"),
+ "C11-c": ("in-memory relink of the predecessor's parent dropped on two-children removal (disk write kept)", "cached sibling tree gets a cycle: a later lookup / create for a name in that range spins forever"),
+ "C11-d": ("append_fat_sector creates the DIFAT sector only when index > len (was >=)", "any allocation needing FAT sector number 110 (V3 file growing past ~6.8 MB): index out of bounds panic"),
+ "C12-c": ("sector position cache records the target before the seek can fail", "a seek fault during a stream refill followed by an immediate retry on the same handle: data read from the old offset"),
+ "C12-d": ("failed-refill cleanup moved from fill_buf into Read::read", "BufRead users (fill_buf/consume, read_until): retry after a failed refill serves the previous window's bytes"),
  "C18-b": ("write_clsid uses write() instead of write_all() for the 8-byte tail", "a backend that splits or interrupts exactly that <= 8-byte write"),
 }
 root = '/verif/seeded'
@@ -44,7 +68,7 @@ for d in sorted(os.listdir(root)):
     p = os.path.join(root, d)
     if not os.path.isdir(p) or d not in NEEDS: continue
     prop, m = d.split('-')
-    notes = f'/tmp/wt_{prop}/out/notes.md'
+    notes = f'/tmp/wt_{prop}/out/notes.md' if m in 'ab' else f'/tmp/wu_{prop}/out/notes.md'
     if os.path.exists(notes): shutil.copy(notes, os.path.join(p, 'notes.md'))
     run = {}
     if os.path.exists(os.path.join(p, 'run.json')):
